@@ -1,5 +1,5 @@
 INIT Init
 NEXT Next
-CONSTANTS NE = 8 NS = 2 MaxLen = 4
+CONSTANTS NE = 10 NS = 2 MaxLen = 4
 INVARIANT Emit
 CHECK_DEADLOCK FALSE
